@@ -25,7 +25,7 @@ import (
 
 type apiJob struct {
 	Docs []string `json:"docs"`
-	Ops  []string `json:"ops"` // R<d> Render, C<d> Render+cache, D<d> Render+debug, W<d> RenderWithAST, F<d> RenderFromAST, N<d> NewFromAST, T<k> RenderComponentString
+	Ops  []string `json:"ops"` // R<d> Render, C<d> Render+cache, D<d> Render+debug, W<d> RenderWithAST, F<d> RenderFromAST, N<d> NewFromAST, T<k> RenderComponentString; P<d> parse and keep the tree, X<d> RenderWithAST and keep its tree, A<k> RenderFromAST(kept tree k), M<k> NewFromAST(kept tree k)
 	Full bool     `json:"full"`
 }
 
@@ -57,6 +57,7 @@ func apiChild() {
 	}
 	enc := json.NewEncoder(os.Stdout)
 	var trees []mjml.Component
+	var asts []*parser.MJMLNode // trees a caller parsed once and keeps (P, X), rendered any number of times (A, M)
 	for _, op := range job.Ops {
 		var o apiObs
 		func() {
@@ -96,6 +97,37 @@ func apiChild() {
 					if err == nil {
 						trees = append(trees, c)
 					}
+				}
+			case 'P':
+				var ast *parser.MJMLNode
+				ast, err = mjml.ParseMJML(job.Docs[k])
+				if err == nil {
+					asts = append(asts, ast)
+				}
+			case 'X':
+				var rr *mjml.RenderResult
+				rr, err = mjml.RenderWithAST(job.Docs[k])
+				if rr != nil {
+					html = rr.HTML
+					if rr.AST != nil {
+						asts = append(asts, rr.AST)
+					}
+				}
+			case 'A':
+				if k < len(asts) {
+					html, err = mjml.RenderFromAST(asts[k])
+				} else {
+					err = fmt.Errorf("no-ast")
+				}
+			case 'M':
+				if k < len(asts) {
+					var c mjml.Component
+					c, err = mjml.NewFromAST(asts[k])
+					if err == nil {
+						trees = append(trees, c)
+					}
+				} else {
+					err = fmt.Errorf("no-ast")
 				}
 			case 'T':
 				if k < len(trees) {
@@ -577,6 +609,22 @@ var (
 // one pair of documents per class of head difference (shared with C07): history independence must hold across each of them
 func init() {
 	next := 5
+	// the head-reading document of the cache check: author HTML with class + own style attribute inside mj-text / mj-table /
+	// mj-button / mj-raw next to an inline rule — a renderer that writes the merged style back into the tree shows when the
+	// same tree is rendered again
+	{
+		d := cacheDocs[len(cacheDocs)-1]
+		apiDocs = append(apiDocs, d)
+		apiOkBits += "1"
+		if _, err := mjml.Render(d); err != nil {
+			apiValBits += "1"
+		} else {
+			apiValBits += "0"
+		}
+		apiStateBits += "0"
+		apiAttrs += fmt.Sprintf(",%d", next)
+		next++
+	}
 	for _, cl := range isoClasses() {
 		for _, d := range []string{cl.a, cl.b} {
 			apiDocs = append(apiDocs, d)
@@ -598,8 +646,41 @@ func init() {
 	}
 }
 
+// eqOps says what each op of a history must behave like: a kept tree is just the parse of its document, so A<k> (RenderFromAST of
+// kept tree k) must return what F<doc> returns, M<k> builds what N<doc> builds, X<d> is W<d>; P<d> (parse and keep) returns nothing.
+func eqOps(h []string) []string {
+	eq := make([]string, len(h))
+	var astDoc []int
+	for j, o := range h {
+		k, _ := strconv.Atoi(o[1:])
+		switch o[0] {
+		case 'P':
+			if k < len(apiOkBits) && apiOkBits[k] != '0' {
+				astDoc = append(astDoc, k)
+			}
+			eq[j] = ""
+		case 'X':
+			if k < len(apiOkBits) && apiOkBits[k] == '1' {
+				astDoc = append(astDoc, k)
+			}
+			eq[j] = fmt.Sprintf("W%d", k)
+		case 'A':
+			if k < len(astDoc) {
+				eq[j] = fmt.Sprintf("F%d", astDoc[k])
+			}
+		case 'M':
+			if k < len(astDoc) {
+				eq[j] = fmt.Sprintf("N%d", astDoc[k])
+			}
+		default:
+			eq[j] = o
+		}
+	}
+	return eq
+}
+
 func runC08(res *Result, tier string, seed int64, replay string) {
-	res.Rule = "histories of calls to Render / RenderWithAST / RenderFromAST / NewFromAST / RenderComponentString (plus Render with cache and with debug) over five documents with conflicting heads (two with different mj-all / tag / mj-class defaults, one without head and with a group, one unparsable, one with a validation error); every history runs in a fresh process; each result is compared with the same call made FIRST in a fresh process, and with the Lean API model (driver `api`), which says which results must be the fresh ones and which trees are rendered with another document's store. Also: Render = class-order rewrite of RenderFromAST. Non-trivial = history with ≥2 calls on different documents; distinct by op list"
+	res.Rule = "histories of calls to Render / RenderWithAST / RenderFromAST / NewFromAST / RenderComponentString (plus Render with cache and with debug; plus trees the caller parsed once or got back from RenderWithAST and keeps: rendered and built from any number of times, each time required to behave like a fresh parse) over five documents with conflicting heads (two with different mj-all / tag / mj-class defaults, one without head and with a group, one unparsable, one with a validation error); every history runs in a fresh process; each result is compared with the same call made FIRST in a fresh process, and with the Lean API model (driver `api`), which says which results must be the fresh ones and which trees are rendered with another document's store. Also: Render = class-order rewrite of RenderFromAST. Non-trivial = history with ≥2 calls on different documents; distinct by op list"
 	drv, err := startDriverPool(4)
 	if err != nil {
 		res.Disagree(Violation{Sig: "driver-missing", What: err.Error()})
@@ -665,11 +746,12 @@ func runC08(res *Result, tier string, seed int64, replay string) {
 		// exhaustive pairs and a family of triples first
 		kinds := "RCDWFN"
 		// groups: the seven hand-written documents together, and each pair of documents that differ in one class of head feature
+		nHand := len(apiDocs) - 2*len(isoClasses())
 		group := func(d int) int {
-			if d < 7 {
+			if d < nHand {
 				return 0
 			}
-			return 1 + (d-7)/2
+			return 1 + (d-nHand)/2
 		}
 		for _, k1 := range kinds {
 			for d1 := range apiDocs {
@@ -687,13 +769,36 @@ func runC08(res *Result, tier string, seed int64, replay string) {
 				}
 			}
 		}
+		// a tree a caller parsed once, rendered many times (and the tree RenderWithAST hands back): every document, every way
+		for d := range apiDocs {
+			if apiOkBits[d] == '0' {
+				continue
+			}
+			hists = append(hists, []string{fmt.Sprintf("P%d", d), "A0", "A0", "A0", "M0", "T0", "A0", "T0"})
+			hists = append(hists, []string{fmt.Sprintf("P%d", d), "M0", "T0", "M0", "T1", "A0", fmt.Sprintf("R%d", d), "A0"})
+			if apiOkBits[d] == '1' {
+				hists = append(hists, []string{fmt.Sprintf("X%d", d), "A0", fmt.Sprintf("X%d", d), "A0", "A1", "M0", "T0"})
+				hists = append(hists, []string{fmt.Sprintf("C%d", d), fmt.Sprintf("C%d", d), fmt.Sprintf("C%d", d), fmt.Sprintf("R%d", d), fmt.Sprintf("C%d", d)})
+			}
+		}
 		for i := 0; i < n; i++ {
 			r := NewRng(seed, fmt.Sprintf("c08/%d", i))
 			L := 2 + r.Intn(maxLen-1)
 			var h []string
-			trees := 0
+			trees, asts := 0, 0
 			for j := 0; j < L; j++ {
-				k := "RRCDWFFNNTTT"[r.Intn(12)]
+				k := "RRCDWFFNNTTTPXAAAMM"[r.Intn(19)]
+				if k == 'A' || k == 'M' {
+					if asts == 0 {
+						k = 'P'
+					} else {
+						if k == 'M' {
+							trees++
+						}
+						h = append(h, fmt.Sprintf("%c%d", k, r.Intn(asts)))
+						continue
+					}
+				}
 				if k == 'T' {
 					if trees == 0 {
 						k = 'N'
@@ -706,35 +811,57 @@ func runC08(res *Result, tier string, seed int64, replay string) {
 				if k == 'N' && apiOkBits[d] != '0' {
 					trees++
 				}
+				if (k == 'P' && apiOkBits[d] != '0') || (k == 'X' && apiOkBits[d] == '1') {
+					asts++
+				}
 				h = append(h, fmt.Sprintf("%c%d", k, d))
 			}
 			hists = append(hists, h)
 		}
 	}
 	parallel(16, len(hists), func(i int) {
-		h := hists[i]
+		real := hists[i]
+		// kept trees (P / X / A / M) are judged as the calls they must be equivalent to; the child process runs the real ops
+		h := eqOps(real)
 		// the model does not distinguish cache/debug variants of Render: both are `render`
-		mops := make([]string, len(h))
+		var mops []string
+		mi := make([]int, len(h))
 		for j, o := range h {
-			mops[j] = o
-			if o[0] == 'C' || o[0] == 'D' {
-				mops[j] = "R" + o[1:]
+			mi[j] = -1
+			if o == "" {
+				continue
 			}
+			m := o
+			if o[0] == 'C' || o[0] == 'D' {
+				m = "R" + o[1:]
+			}
+			mi[j] = len(mops)
+			mops = append(mops, m)
 		}
-		pred, err := drv.Ask("api " + apiOkBits + " " + apiValBits + " " + apiStateBits + " " + apiAttrs + " " + strings.Join(mops, " "))
-		preds := strings.Fields(pred)
-		if err != nil || len(preds) != len(h) {
+		var pred string
+		var err error
+		if len(mops) > 0 {
+			pred, err = drv.Ask("api " + apiOkBits + " " + apiValBits + " " + apiStateBits + " " + apiAttrs + " " + strings.Join(mops, " "))
+		}
+		predsAll := strings.Fields(pred)
+		if err != nil || len(predsAll) != len(mops) {
 			res.Disagree(Violation{Sig: "driver-bad-output", What: fmt.Sprint(err, pred)})
 			return
 		}
-		obs, crash := runAPIChild(apiJob{Docs: apiDocs, Ops: h, Full: false})
+		preds := make([]string, len(h))
+		for j := range h {
+			if mi[j] >= 0 {
+				preds[j] = predsAll[mi[j]]
+			}
+		}
+		obs, crash := runAPIChild(apiJob{Docs: apiDocs, Ops: real, Full: false})
 		// digests first (cheap); the full HTML is fetched again only for a history that disagrees somewhere
 		needFull := false
 		for j, o := range h {
-			if j < len(obs) && o[0] != 'N' {
+			if j < len(obs) && o != "" && o[0] != 'N' {
 				var want apiObs
 				if o[0] == 'T' {
-					p := strings.Split(strings.Fields(pred + " x")[min(j, len(strings.Fields(pred))-1)], ":")
+					p := strings.Split(preds[j], ":")
 					if len(p) > 1 {
 						d, _ := strconv.Atoi(p[1])
 						want = treeFresh[d]
@@ -748,11 +875,14 @@ func runC08(res *Result, tier string, seed int64, replay string) {
 			}
 		}
 		if needFull {
-			obs, crash = runAPIChild(apiJob{Docs: apiDocs, Ops: h, Full: true})
+			obs, crash = runAPIChild(apiJob{Docs: apiDocs, Ops: real, Full: true})
 		} else {
 			for j := range obs {
 				// equal digests: reuse the reference HTML so that the comparisons below see equality
 				o := h[j]
+				if o == "" {
+					continue
+				}
 				switch o[0] {
 				case 'N':
 				case 'T':
@@ -768,20 +898,20 @@ func runC08(res *Result, tier string, seed int64, replay string) {
 		}
 		distinctDocs := map[byte]bool{}
 		for _, o := range h {
-			if o[0] != 'T' {
+			if o != "" && o[0] != 'T' {
 				distinctDocs[o[1]] = true
 			}
 		}
-		res.Case(strings.Join(h, " "), len(distinctDocs) >= 2)
+		res.Case(strings.Join(real, " "), len(distinctDocs) >= 2)
 		res.mu.Lock()
 		res.Programs++
 		res.DisagreementsChecked += len(h)
 		res.mu.Unlock()
 		if i%300 == 5 {
-			res.Sample(map[string]interface{}{"history": h, "model": preds})
+			res.Sample(map[string]interface{}{"history": real, "judged_as": h, "model": preds})
 		}
 		res.Count(fmt.Sprintf("len%03d", min(len(h), 200)/10*10))
-		in := map[string]interface{}{"ops": h}
+		in := map[string]interface{}{"ops": real}
 		if crash != "" || len(obs) != len(h) {
 			res.Violate(Violation{Sig: "process-crash|" + short(strings.Join(h, ","), 60), Kind: "history", What: crash, Input: in})
 			return
@@ -793,8 +923,8 @@ func runC08(res *Result, tier string, seed int64, replay string) {
 				return
 			}
 			switch {
-			case o[0] == 'N':
-				// creation only; nothing rendered
+			case o == "" || o[0] == 'N':
+				// parse / creation only; nothing rendered
 			case o[0] == 'T':
 				p := strings.Split(preds[j], ":")
 				if p[0] == "no-tree" {
